@@ -105,6 +105,25 @@ def run(ck):
     ck.notes.append('normalised verifier schedule:\n' + '\n'.join(sched.show(trees['verifier'], with_loc=False)))
 
 
+def golden_rule(ck, w, rule, why):
+    """the golden-schedule comparison of C01.R3, reported under another property whose behaviour depends on the ORDER of the Fiat–Shamir transcript"""
+    ck.rule(rule, 'Fiat–Shamir order: the complete transcript schedule of the prover (create_proof … multi_open) and of the verifier (prepare … multi_prepare), extracted '
+                  'with symbolic loop domains, equals the schedule written from the protocol description (tables.GOLDEN_PLONK): every prover message is absorbed before '
+                  'the challenges that must depend on it.  ' + why)
+    nrm = make_norm()
+    gold = nrm.norm(tables.golden_plonk())
+    for name, root in (('prover', PROVER), ('verifier', VERIFIER)):
+        ex, t = extract(w, root)
+        op = schednorm.find_opaque(t)
+        if op:
+            ck.bad(rule, f'{name}:total', f'{name} schedule contains constructs the extractor cannot analyse (fail closed): {op[:3]}')
+            continue
+        t = nrm.norm(t)
+        t = schednorm.dualize(t) if name == 'prover' else t
+        d = schednorm.compare(t, schednorm.dualize(gold), '', name, 'golden')
+        ck.record(rule, f'{name}~golden', d is None, 'equals the golden PLONK schedule', f'{name} schedule deviates from the golden schedule: {d}')
+
+
 def r4_query_indexing(ck, w):
     """Opening queries: evaluations are indexed per QUERY, commitments per COLUMN."""
     from ..core import walk, peel, pat_bindings, expr_str
